@@ -197,6 +197,10 @@ def _rand_block_row(rng, rw, W):
     n = rng.choice([rw, rw, rw - 1 if rw else 0, rng.randint(0, W + 1)])
     n = max(0, n)
     if rng.random() < .3:
+        if n and rng.random() < .25:
+            # a plain str row holding characters that "text" handling tends to rewrite (a TAB, a BOM, a lone surrogate, NUL): one cell each
+            t = "".join(rng.choice("x\t\ufeff\udce9\x00y") for _ in range(n))
+            return t
         return "xyzw"[:n] if n <= 4 else "x" * n
     runs, left = [], n
     while left > 0:
@@ -276,7 +280,7 @@ def bounded(check, tier, seed):
     from curtsies.formatstringarray import fsarray
     s = Suite(check, "C04.fsarray", "fsarray(strings, width) for every list of <=3 rows over a 6-row pool x width None/0..4",
               bound="<=3 rows, width<=4")
-    pool = ["", "ab", mk((1, 1)), mk((2,), 70, 2), "abcd"]
+    pool = ["", "ab", mk((1, 1)), mk((2,), 70, 2), "abcd", "x\ty", "\ufeffq"]
     for n_ in range(0, 4):
         for rows in itertools.product(pool, repeat=n_):
             for width in [None, 0, 1, 2, 3, 4]:
